@@ -424,8 +424,20 @@ def classify_compile_errors(stage_dir, blocks):
 # ---------------------------------------------------------------------------
 # the runner
 
+def _prune_logs(keep=int(os.environ.get('VERIF_KEEP_LOGS', '60'))):
+    """Keep the newest `keep` run / playback directories under out/kani-logs (a C10 run leaves hundreds of MB)."""
+    try:
+        ds = sorted((os.path.join(LOG_ROOT, x) for x in os.listdir(LOG_ROOT)), key=os.path.getmtime)
+        for d in ds[:-keep] if keep > 0 else []:
+            if time.time() - os.path.getmtime(d) > 6 * 3600:      # never touch what a concurrent run may still read
+                shutil.rmtree(d, ignore_errors=True)
+    except OSError:
+        pass
+
+
 def _new_log_dir(tag):
     os.makedirs(LOG_ROOT, exist_ok=True)
+    _prune_logs()
     base = os.path.join(LOG_ROOT, '%s-%d-%s' % (time.strftime('%Y%m%d-%H%M%S'), os.getpid(), tag))
     d = base
     k = 0
